@@ -3,7 +3,7 @@ CONSTANTS
   Eager = FALSE
   MaxRequests = 0
 INIT Init
-NEXT Next
+NEXT MCNext
 VIEW View
 INVARIANTS NoPanic TypeOK LentIffInCall Lazy RowsPrefix RowsFinal SemFinal Report
 CHECK_DEADLOCK FALSE
